@@ -46,6 +46,8 @@ func init() {
 				Bound: "quick: {a: scalar|flat map|[], b: scalar?} on both sides; thorough: all pairs of maps of depth<=2 over keys {a,b}"},
 			{Pkg: "bkld", Func: "HarnessC15_lists", Tiers: "qt", Covers: []string{"diff.same", "diff.changed"},
 				Bound: "a list under one key on both sides, length<=2 (quick) / 3 (thorough), entries scalar | {a} | {a,b}; every equality pattern among the entries is solver-decided"},
+			{Pkg: "bkld", Func: "HarnessC15_longlists", Tiers: "qt", Covers: []string{"diff.same", "diff.changed"},
+				Bound: "lists of symbolic-kind scalars: base <=2 (thorough 3), target <=4 (thorough 5) entries; every equality pattern among the entries (kept, dropped, repeated, reordered, appended, duplicates of base entries)"},
 		},
 		Assume:  toolAssume,
 		Outside: "deeper trees, longer lists; file formats and the I/O glue of cmd/bkld/main.go (diffDoc is called directly; base and target are $-free so Document.Process is the identity)",
@@ -108,6 +110,8 @@ func init() {
 				Bound: "lower layer with $required at any subset of {map value, nested map value, list entry}; upper layer overriding any subset, mentioning the map without the marker, or appending a marker of its own to the list"},
 			{Pkg: "bkl", Func: "HarnessC07_hidden", Tiers: "qt", Covers: []string{"hidden.checked"},
 				Bound: "an unknown directive-shaped string (every such printable string <= 6 / 9 bytes) as value, key or list entry (next to $required) under $output: false"},
+			{Pkg: "bkl", Func: "HarnessC07_outputs", Tiers: "qt", Covers: []string{"outputs.accepted", "outputs.rejected"},
+				Bound: "the C06 skeleton (any $$-free printable string <= 3 / 5 bytes at one position, one of 25 directive names/shapes at a second) as an emitted subtree in 5 selection shapes: explicit $output:true map, the same below a hidden root, below a hidden inner map, a list selected by a marker entry below a hidden root, nested selections; every emitted document marker-free, a bare $required in it always an error"},
 			{Pkg: "bkl", Func: "HarnessC07_latin1", Tiers: "qt", Covers: []string{"latin1.lower", "latin1.other"},
 				Bound: "\"$\" followed by EVERY two-byte UTF-8 sequence C2/C3 xx (Latin-1 supplement), optionally one more byte, as value, key and list entry: rejected iff the rune is a lower-case letter, passed through unchanged otherwise"},
 			{Pkg: "bkl", Func: "HarnessC07_encode", Tiers: "qt", Covers: []string{"encode.checked"},
@@ -217,6 +221,8 @@ func init() {
 		Harnesses: []harnessSpec{
 			{Pkg: "bkl", Func: "HarnessC14_transforms", Tiers: "qt", Covers: []string{"transform.valid", "transform.invalid"},
 				Bound: "stacks of 1-2 (quick) / 1-3 (thorough) of {join:, join, prefix:p-, flatten, tolist:=, tolist::, values, flags} on lists (<=2), maps ({a,b} with scalar or list values), list of list, list of maps; elements: symbolic strings (<=2 bytes), 7, symbolic bool, empty string; result vs reference semantics, invalid operand kinds rejected"},
+			{Pkg: "bkl", Func: "HarnessC14_args", Tiers: "qt", Covers: []string{"transform.valid", "transform.invalid"},
+				Bound: "one of join:/prefix:/tolist: with ANY argument of 0-2 bytes over {',','-','=','p','.',' '} (the empty argument included), given as string or one-element list, on a list, a map, a scalar, a list of maps, []; result vs reference semantics, invalid operand kinds rejected"},
 			{Pkg: "bkl", Func: "HarnessC14_base64", Tiers: "qt", Covers: []string{"base64.checked"},
 				Bound: "$encode: base64 of EVERY $-free byte string of <= 4 (quick) / 6 (thorough) bytes equals an independent RFC 4648 encoder (bit-level formula over symbolic bytes)"},
 			{Pkg: "bkl", Func: "HarnessC14_codecs", Tiers: "qt", Covers: []string{"codec.sha256", "codec.base64", "codec.roundtrip"},
